@@ -125,7 +125,20 @@ Fixpoint run (mask : list bool) (s : lstate) (i : N) (ops : list (lop * lobs)) :
     end
   end.
 
-Definition l_model (c : lcase) : option (N * N) := let '(mask, i, ops) := c in run mask (init_state i) 0%N ops.
+(* 17: the hypotheses of the reachable-state theorems (C13 / C18) hold of this history: unsigned lock
+   amounts, slash fractions within [0, 1] *)
+Definition wf_opb (o : lop) : bool :=
+  match o with
+  | LOp (KReq _ _ q) => forallb (fun r : N * N * Z => 0 <=? snd r) (q_locks q)
+  | _ => true
+  end.
+Definition wf_caseb (i : linit) (ops : list (lop * lobs)) : bool :=
+  (0 <=? lp_slash_down (i_params i)) && (lp_slash_down (i_params i) <=? one18) &&
+  (0 <=? lp_slash_double (i_params i)) && (lp_slash_double (i_params i) <=? one18) &&
+  forallb (fun x => wf_opb (fst x)) ops.
+Definition l_model (c : lcase) : option (N * N) :=
+  let '(mask, i, ops) := c in
+  if mask_at mask 15 && negb (wf_caseb i ops) then Some (0%N, 17%N) else run mask (init_state i) 0%N ops.
 Definition l_observed (c : lcase) : option (N * N) := None.
 Definition opt_eqb (a b : option (N * N)) : bool :=
   match a, b with None, None => true | _, _ => false end.
